@@ -29,7 +29,7 @@ ID = "C07"
 LEVEL = "exploration"
 MIN_OUTCOMES = 3
 MANIFEST = {
-    'text': 'Exhaustive over the stated literal alphabet (69 symbols) up to length 2/3 plus length-40 repetitions, in 4 contexts: the compiled regex must consist of literal nodes for the literal text (structure oracle), must find exactly what a reference regex built with re.escape finds on the exact line and on every single-character edit of it, and rendering must reproduce the text; grep/update are driven through the CLI for every single symbol (conformance of the library seam), with the text in the middle of a line, at its very start, at its very end and alone on it, on the first/middle/last line of a file with and without final newline, and - for update - with the symbol before and after {version}, the patterns given through bumpver.toml and through setup.cfg; 45 regex-idiom literals in every tier.',
+    'text': 'Exhaustive over the stated literal alphabet (69 symbols) up to length 2/3 plus length-40 repetitions, in 4 contexts: the compiled regex must consist of literal nodes for the literal text (structure oracle), must find exactly what a reference regex built with re.escape finds on the exact line and on every single-character edit of it, and rendering must reproduce the text; grep/update are driven through the CLI for every single symbol (conformance of the library seam), with the text in the middle of a line, at its very start, at its very end and alone on it, on the first/middle/last line of a file with and without final newline, and - for update - with the symbol before {version}, after it, and on BOTH sides of it (k.txt), the patterns given through bumpver.toml and through setup.cfg; 45 regex-idiom literals in every tier.',
     'note': 'non-ASCII literals and strings longer than 3 symbols with more than two distinct symbols are outside the bound',
     'technique': 'exhaustive enumeration of a bounded input grammar against a reference recogniser (structural + behavioural oracle)',
 }
@@ -501,6 +501,36 @@ def cli_conformance(st, sym):
         else:
             st.validated += 1
         st.outcomes["cli-update-setup.cfg"] += 1
+    # k.txt: the symbol on BOTH sides of {version} (a pattern that starts and ends with the same quote character is still that text), through
+    # both config formats; lines that carry the version bare or with the symbol on one side only must stay
+    if sym != "$":
+        kpat = sym + "{version}" + sym
+        krx = re.compile(re.escape(text) + V + re.escape(text))
+        klines = ["XX " + text + "1.2.3" + text + " XX", "XX 1.2.3 XX", "XX " + text + "1.2.3 XX", "XX 1.2.3" + text + " XX", text + "1.2.3" + text, "1.2.3"]
+        kbody, kwant = "\n".join(klines) + "\n", "\n".join(wanted(klines, krx, text, text)) + "\n"
+        configs = {"bumpver.toml": "[bumpver]\ncurrent_version = \"1.2.3\"\nversion_pattern = \"MAJOR.MINOR.PATCH\"\n\n[bumpver.file_patterns]\n"
+                                   "\"bumpver.toml\" = ['current_version = \"{version}\"']\n" + f"\"k.txt\" = [{_toml_str(kpat)}]\n"}
+        try:
+            if _toml.loads(configs["bumpver.toml"])["bumpver"]["file_patterns"]["k.txt"] != [kpat]:
+                del configs["bumpver.toml"]
+        except Exception:
+            del configs["bumpver.toml"]
+        if ini_ok(kpat):
+            configs["setup.cfg"] = ("[bumpver]\ncurrent_version = 1.2.3\nversion_pattern = MAJOR.MINOR.PATCH\n\n[bumpver:file_patterns]\nsetup.cfg =\n"
+                                    "    current_version = {version}\nk.txt =\n    " + kpat + "\n")
+        for cname, ctext in sorted(configs.items()):
+            world.clear_dir(".")
+            world.write_tree({cname: ctext.encode(), "k.txt": kbody.encode()})
+            o = world.cli("update", "--patch", "--no-fetch")
+            st.evaluations += 1
+            kafter = world.read_tree(".").get("k.txt", b"").decode("utf-8", "replace")
+            st.observe((sym, "update-both-sides", cname, o.exit, o.crashed, kafter))
+            if o.exit != 0 or kafter != kwant:
+                st.violation(_cli_sig(sym, "both"), {"syms": [sym], "ctx": "update", "cli": "update", "config": cname, "both_sides": True},
+                             {"kind": "update-symbol-on-both-sides", "file_patterns": [kpat], "exit": o.exit, "crashed": o.crashed, "k.txt": kafter, "k.txt expected": kwant, "log": o.log[-3:]})
+            else:
+                st.validated += 1
+            st.outcomes["cli-update-both-sides:" + cname] += 1
     os.chdir("/")
 
 
